@@ -42,6 +42,14 @@ fn c15_agree_all() {
     agree(&buf[..len]);
 }
 #[kani::proof]
+fn c15_agree_all_160() {
+    // thorough tier: the same obligation up to 160 bytes (room for a 60-byte IPv4 header behind every framing)
+    let buf: [u8; 160] = kani::any();
+    let len: usize = kani::any();
+    kani::assume(len <= 160);
+    agree(&buf[..len]);
+}
+#[kani::proof]
 fn c15_agree_ethernet() {
     // the common framing on its own, so that a regression names the framing it breaks
     let buf: [u8; N] = kani::any();
